@@ -129,4 +129,118 @@ theorem df_last_icao (crc b0 : Nat) (rest : List Nat) (h : b0 < 256)
     apply Ends_pure
     exact lastIcao_withFields crc _ _
 
+/-! ### the overlay on the specification side -/
+
+theorem apField_bits (data : List Nat) (a : Nat) :
+    bits (apField data a) = bitsN 24 ((parity (bits data)).toNat ^^^ a) :=
+  bits_pack _ (by simp [bitsN_length])
+
+theorem pack_length (bs : List Bool) : (pack bs).length = bs.length / 8 := by
+  fun_induction pack bs with
+  | case1 b7 b6 b5 b4 b3 b2 b1 b0 rest ih => simp [ih]; omega
+  | case2 bs hne =>
+    match bs, hne with
+    | [], _ => simp
+    | [_], _ => simp
+    | [_, _], _ => simp
+    | [_, _, _], _ => simp
+    | [_, _, _, _], _ => simp
+    | [_, _, _, _, _], _ => simp
+    | [_, _, _, _, _, _], _ => simp
+    | [_, _, _, _, _, _, _], _ => simp
+    | _ :: _ :: _ :: _ :: _ :: _ :: _ :: _ :: _, hne => exact absurd rfl (hne _ _ _ _ _ _ _ _ _)
+
+theorem apField_length (data : List Nat) (a : Nat) : (apField data a).length = 3 := by
+  rw [apField, pack_length, bitsN_length]
+
+theorem valBE8_lt (b7 b6 b5 b4 b3 b2 b1 b0 : Bool) : valBE [b7, b6, b5, b4, b3, b2, b1, b0] < 256 :=
+  by
+  have := valBE_lt [b7, b6, b5, b4, b3, b2, b1, b0]
+  simpa using this
+
+theorem pack_bytes (bs : List Bool) : Bytes (pack bs) := by
+  fun_induction pack bs with
+  | case1 b7 b6 b5 b4 b3 b2 b1 b0 rest ih =>
+    intro x hx
+    simp only [List.mem_cons] at hx
+    rcases hx with rfl | hx
+    · exact valBE8_lt ..
+    · exact ih x hx
+  | case2 bs hne => intro x hx; simp at hx
+
+theorem encodeAP_bytes (data : List Nat) (a : Nat) (hd : Bytes data) : Bytes (encodeAP data a) := by
+  intro x hx
+  simp only [encodeAP, List.mem_append] at hx
+  rcases hx with hx | hx
+  · exact hd x hx
+  · exact pack_bytes _ x hx
+
+theorem encodeAP_length (data : List Nat) (a : Nat) : (encodeAP data a).length = data.length + 3 := by
+  simp [encodeAP, apField_length]
+
+/-- **the overlay is undone by the remainder**: whatever the data, whatever the address -/
+theorem syndrome_encodeAP (data : List Nat) (a : Nat) (ha : a < 2 ^ 24) :
+    syndrome (encodeAP data a) = a := by
+  unfold syndrome encodeAP
+  rw [bits_append, apField_bits, polyMod_append24 _ _ (by simp [bitsN_length]), BitVec.toNat_xor,
+    polyMod_short _ (by simp [bitsN_length]), valBE_bitsN]
+  have hp := (parity (bits data)).isLt
+  generalize (parity (bits data)).toNat = p at *
+  rw [Nat.mod_eq_of_lt (Nat.xor_lt_two_pow hp ha), ← Nat.xor_assoc, Nat.xor_self, Nat.zero_xor]
+
+/-! ### `Message::try_from` on a frame of the prescribed length -/
+
+/-- the tail of `tryFrom`: an accepted parse is wrapped into the serialised message -/
+def wrap : Outcome SerFields → Outcome Decoded
+  | .err e => .err e
+  | .panic x => .panic x
+  | .ok v => .ok (toDecoded v)
+
+theorem tryFrom_exact (b0 : Nat) (rest : List Nat) (hl : 8 * (b0 :: rest).length = frameBits b0) :
+    tryFrom (b0 :: rest) = wrap (decodeBuf b0 (b0 :: rest)) := by
+  have h8 : frameBits b0 / 8 = (b0 :: rest).length := by omega
+  unfold tryFrom
+  simp only [h8, Nat.lt_irrefl, ↓reduceIte, List.take_length, bne_self_eq_false, Bool.false_eq_true]
+  cases decodeBuf b0 (b0 :: rest) <;> rfl
+
+/-- acceptance implies the announced length (as C01's `accept_len_core`) -/
+theorem tryFrom_ok_length (b0 : Nat) (rest : List Nat) (d : Decoded)
+    (h : tryFrom (b0 :: rest) = .ok d) : 8 * (b0 :: rest).length = frameBits b0 := by
+  have hf : frameBits b0 = 112 ∨ frameBits b0 = 56 := by
+    unfold frameBits; split <;> simp
+  simp only [tryFrom] at h
+  split at h
+  · cases h
+  · split at h
+    · cases h
+    · cases h
+    · split at h
+      · cases h
+      · rename_i hl
+        simp only [bne_iff_ne, ne_eq, Decidable.not_not] at hl
+        rcases hf with hf | hf <;> rw [hf] at hl ⊢ <;> omega
+
+/-- downlink format: the top five bits of the first byte -/
+def dfField (frame : List Nat) : Nat := frame.headD 0 >>> 3
+
+/-- complete description of `Message::try_from` on a 14-byte frame announcing DF 17:
+    rejected with the CRC assertion unless the remainder is zero, and then exactly the `DF`
+    parser's outcome (with context 0) -/
+theorem tryFrom_df17 (frame : List Nat) (hl : frame.length = 14) (hb : Bytes frame)
+    (hdf : dfField frame = 17) :
+    tryFrom frame = if polyMod (bits frame) = 0#24 then wrap (parseDF 0 frame) else .err .assertion := by
+  match frame, hl with
+  | b0 :: rest, hl =>
+    simp only [dfField, List.headD_cons] at hdf
+    have hfb : frameBits b0 = 112 := frameBits_long b0 (by rw [hdf]; decide)
+    rw [tryFrom_exact b0 rest (by rw [hfb, hl])]
+    by_cases hz : polyMod (bits (b0 :: rest)) = 0#24
+    · rw [if_pos hz, decodeBuf_df17_pass b0 _ hl hb hdf (by simp [syndrome, hz])]
+    · rw [if_neg hz, decodeBuf_df17_reject b0 _ hl hb hdf]
+      · rfl
+      · intro h0
+        apply hz
+        apply BitVec.eq_of_toNat_eq
+        simpa [syndrome] using h0
+
 end Rs1090.Proofs.Crc
